@@ -252,7 +252,7 @@ where
         events,
         batches: vec![],
     };
-    match cursor::execute(&cs, Judge { evals: true, streams: true, build: true }, cov, prog) {
+    match cursor::execute(&cs, Judge { evals: true, streams: true, build: true, battery: false }, cov, prog) {
         RunResult::Clean { digest } => dig.word(digest),
         RunResult::Discard => {}
         RunResult::Violation { class, detail } => {
